@@ -8,11 +8,29 @@ open Discret.Room (Key Ent RightType)
 
 theorem st2_nodes_sub {d : Defects} {s : Inst} {room : Nat} {b : Batch} {x : NodeRow}
     (hx : x ∈ (st2 d s room b).nodes) : x ∈ s.nodes := by
-  have := foldl_applyNodeDel_sublist
-    (L := (dedupDel (keepNodeDels d room b.nodeDels)).filter fun r => nodeDelAccepted d (st1 d s room b) r.entry) (s := st1 d s room b)
-  have h := this.subset hx
+  have h := (deleteNodes_sublist d (st1 d s room b) (keepNodeDels d room b.nodeDels)).subset hx
   rw [(st1_fields d s room b).2.1] at h
   exact h
+
+theorem hasRight_of_rooms {s si : Inst} (h : si.rooms = s.rooms) {r : Nat} {k : Key} {e : Ent} {dt : Int} {rt : RightType}
+    (hr : HasRight si r k e dt rt) : HasRight s r k e dt rt := by
+  obtain ⟨rm, h1, h2, h3, h4⟩ := hr
+  refine ⟨rm, h ▸ h1, h2, ?_, h4⟩
+  unfold findRoom at h3 ⊢
+  rw [← h]; exact h3
+
+/-- a record judged at its turn, when the row it names was still there, is judged as against the tables of the stage
+    (row ids are unique, so the local row of that id is the same one) -/
+theorem NodeDelOkD.of_turn {d : Defects} {s si : Inst} {room : Nat} {r : InNodeDel} {x : NodeRow}
+    (hn : NodupIds s.nodes) (ht : Turn s si) (hx : x ∈ si.nodes) (hid : x.id = r.entry.id)
+    (h : NodeDelOkD d si room r) : NodeDelOkD d s room r := by
+  have hni : NodupIds si.nodes := List.Nodup.sublist (List.Sublist.map _ ht.2) hn
+  have e1 : localRow si.nodes r.entry.id = some x := by rw [← hid]; exact localRow_of_mem hni hx
+  have e2 : localRow s.nodes r.entry.id = some x := by rw [← hid]; exact localRow_of_mem hn (ht.2.subset hx)
+  refine ⟨h.sig, h.inRoom, h.known, h.data, ?_, ?_⟩
+  · intro hd l hl; rw [e2] at hl; exact h.sameEntity hd l (by rw [e1]; exact hl)
+  · have := hasRight_of_rooms ht.1 h.right
+    rw [e1] at this; rw [e2]; exact this
 
 /-- a row present after the day and not before is a received row that was entitled to be stored -/
 theorem day_new_rows {d : Defects} {s : Inst} {room : Nat} {b : Batch} {x : NodeRow}
@@ -27,6 +45,20 @@ theorem day_new_rows {d : Defects} {s : Inst} {room : Nat} {b : Batch} {x : Node
   · rw [(edgeStage_fields d _ room b.edges).2.1] at hx
     exact nodeStage_new h3 hx hn2
 
+/-- once announced ids that carry a deletion record of the room are not requested (#18 repaired), a row that appears
+    during the day carries none in the tables as they are after the deletion records of the day -/
+theorem day_new_rows_not_deleted {d : Defects} {s : Inst} {room : Nat} {b : Batch} {x : NodeRow}
+    (hd : d.announcedDeletedRequested = false)
+    (hx : x ∈ (syncDay d s room b).1.nodes) (hnew : x ∉ s.nodes) : deletedIn (st2 d s room b) room x.id = false := by
+  have hn2 : x ∉ (st2 d s room b).nodes := fun h => hnew (st2_nodes_sub h)
+  rcases syncDay_cases d s room b with h | ⟨_, h⟩ | ⟨_, _, h⟩ | ⟨_, _, _, h⟩ | ⟨_, _, _, _, h⟩ <;> rw [h] at hx
+  · exact absurd hx hnew
+  · rw [(st1_fields d s room b).2.1] at hx; exact absurd hx hnew
+  · exact absurd hx hn2
+  · exact nodeStage_new_gate hd hx hn2
+  · rw [(edgeStage_fields d _ room b.edges).2.1] at hx
+    exact nodeStage_new_gate hd hx hn2
+
 /-- a row present before the day and not after was deleted by an entitled deletion record of its
     room and id, or overwritten by an entitled received row of its id -/
 theorem day_removed_rows {d : Defects} {s : Inst} {room : Nat} {b : Batch} {x : NodeRow}
@@ -38,9 +70,10 @@ theorem day_removed_rows {d : Defects} {s : Inst} {room : Nat} {b : Batch} {x : 
   have viaDel : (∀ r ∈ keepNodeDels d room b.nodeDels, r.sigOk = true) → x ∉ (st2 d s room b).nodes →
       ∃ r ∈ b.nodeDels, x.room = some r.entry.room ∧ x.id = r.entry.id ∧ NodeDelOkD d (st1 d s room b) room r := by
     intro h2 hg
-    obtain ⟨r, hr, h⟩ := (deleteNodes_sound (d := d) (s := st1 d s room b) (room := room) h2
+    obtain ⟨r, hr, e1, e2, si, hti, hxi, hok⟩ := (deleteNodes_sound (d := d) (s := st1 d s room b) (room := room) h2
       (fun r hr => (keepNodeDels_sub hr).2)).2.2.2.2.1 x hx1 hg
-    exact ⟨r, (keepNodeDels_sub hr).1, h⟩
+    have hn1 : NodupIds (st1 d s room b).nodes := by rw [(st1_fields d s room b).2.1]; exact hn
+    exact ⟨r, (keepNodeDels_sub hr).1, e1, e2, hok.of_turn hn1 hti hxi e2⟩
   have viaRow : (∀ r ∈ keepNodeDels d room b.nodeDels, r.sigOk = true) → (∀ n ∈ b.nodes, n.sigOk = true) →
       x ∉ (st3 d s room b).nodes →
       ((∃ r ∈ b.nodeDels, x.room = some r.entry.room ∧ x.id = r.entry.id ∧ NodeDelOkD d (st1 d s room b) room r) ∨
@@ -102,13 +135,15 @@ theorem day_removed_refs {d : Defects} {s : Inst} {room : Nat} {b : Batch} {x : 
       exact Or.inr (addEdgesLoop_removed h4 hin3 hgone)
     · exact Or.inl (viaDel h1 hin)
 
-/-- the deletion logs only gain entitled records -/
+/-- the deletion logs only gain entitled records; a node deletion record is judged against the tables as they are
+    at its turn (`Turn`): the room definitions of the stage, and the rows of the stage that earlier records of the same
+    answer have not deleted yet -/
 theorem day_new_node_log {d : Defects} {s : Inst} {room : Nat} {b : Batch} {t : NodeDel}
     (ht : t ∈ (syncDay d s room b).1.nodeLog) (hnew : t ∉ s.nodeLog) :
-    ∃ r ∈ b.nodeDels, r.entry = t ∧ NodeDelOkD d (st1 d s room b) room r := by
+    ∃ r ∈ b.nodeDels, r.entry = t ∧ ∃ si, Turn (st1 d s room b) si ∧ NodeDelOkD d si room r := by
   have hn1 : t ∉ (st1 d s room b).nodeLog := by rw [(st1_fields d s room b).2.2]; exact hnew
   have via : (∀ r ∈ keepNodeDels d room b.nodeDels, r.sigOk = true) → t ∈ (st2 d s room b).nodeLog →
-      ∃ r ∈ b.nodeDels, r.entry = t ∧ NodeDelOkD d (st1 d s room b) room r := fun h2 h => by
+      ∃ r ∈ b.nodeDels, r.entry = t ∧ ∃ si, Turn (st1 d s room b) si ∧ NodeDelOkD d si room r := fun h2 h => by
     obtain ⟨r, hr, h'⟩ := (deleteNodes_sound (d := d) (s := st1 d s room b) (room := room) h2
       (fun r hr => (keepNodeDels_sub hr).2)).2.2.2.2.2 t h hn1
     exact ⟨r, (keepNodeDels_sub hr).1, h'⟩
@@ -166,25 +201,24 @@ theorem edgeStage_single (d : Defects) (s : Inst) (room : Nat) (e : InEdge) :
 theorem deleteNodes_single (d : Defects) (s : Inst) (r : InNodeDel) :
     deleteNodes d s [r] = if nodeDelAccepted d s r.entry then applyNodeDel s r.entry else s := by
   unfold deleteNodes
-  cases h : nodeDelAccepted d s r.entry <;> simp [dedupDel, h]
+  simp only [List.length_singleton, deleteNodesLoop, splitFirst, List.contains_nil, Bool.false_eq_true, if_false,
+    List.isEmpty_nil, if_true, deleteBatch]
+  cases h : nodeDelAccepted d s r.entry <;> simp [h]
 
 theorem deleteEdges_single (d : Defects) (s : Inst) (r : InEdgeDel) :
     deleteEdges d s [r] = if edgeDelAccepted d s r.entry then applyEdgeDel s r.entry else s := by
   unfold deleteEdges
   cases h : edgeDelAccepted d s r.entry <;> simp [h]
 
-theorem dedupDel_nodup {recs : List InNodeDel} (hd : (recs.map (·.entry.id)).Nodup) : dedupDel recs = recs := by
-  induction recs with
+/-- records with pairwise distinct row ids travel in one message: one verdict each, on the tables before the stage -/
+theorem deleteNodes_nodup_ids (d : Defects) (s : Inst) {recs : List InNodeDel} (hd : (recs.map (·.entry.id)).Nodup) :
+    deleteNodes d s recs = deleteBatch d s recs := by
+  unfold deleteNodes
+  cases recs with
   | nil => rfl
-  | cons x rest ih =>
-    simp only [List.map_cons, List.nodup_cons] at hd
-    unfold dedupDel
-    have : rest.any (fun y => decide (y.entry.id = x.entry.id)) = false := by
-      rw [List.any_eq_false]
-      intro y hy
-      have : x.entry.id ≠ y.entry.id := fun he => hd.1 (List.mem_map.mpr ⟨y, hy, he.symm⟩)
-      simpa using fun h => this h.symm
-    rw [this, ih hd.2]
+  | cons x t =>
+    simp only [List.length_cons, deleteNodesLoop]
+    rw [splitFirst_nodup hd (by intro r _ h; cases h)]
     simp
 
 /-! ### the guard under which a setting of the switches satisfies the statement -/
@@ -206,6 +240,24 @@ def dayGuardBeforeFixes (s : Inst) (room : Nat) (b : Batch) : Bool := dayGuardD 
 /-- with every switch off nothing is excluded -/
 theorem dayGuardD_none (s : Inst) (room : Nat) (b : Batch) : dayGuardD Defects.none s room b = true := by
   simp [dayGuardD, edgeDelGuardD_none, nodeDelGuardD_none, nodeGuardD_none, edgeGuardD_none]
+
+/-- the guard of a node deletion record holds against the tables at its turn when it holds against the tables of
+    the stage: the local row of its id, if still there, is the same row (unique ids) -/
+theorem nodeDelGuardD_turn {d : Defects} {s si : Inst} {room : Nat} {r : InNodeDel} (hn : NodupIds s.nodes)
+    (ht : Turn s si) (g : nodeDelGuardD d s room r = true) : nodeDelGuardD d si room r = true := by
+  unfold nodeDelGuardD at g ⊢
+  simp only [Bool.and_eq_true] at g ⊢
+  refine ⟨g.1, ?_⟩
+  rcases sw_or g.2 with h | h
+  · simp [h]
+  · cases hl : localRow si.nodes r.entry.id with
+    | none => simp
+    | some l =>
+      have hm := (localRow_some hl)
+      have : localRow s.nodes r.entry.id = some l := by rw [← hm.2]; exact localRow_of_mem hn (ht.2.subset hm.1)
+      rw [this] at h
+      simp only [Bool.or_eq_true, Bool.not_eq_true']
+      exact Or.inr h
 
 /-! ### the switches a kind of record depends on -/
 
